@@ -49,23 +49,27 @@ from vt.run import digest, quiet
 
 ID = "C28"
 SHARDS = {"quick": 16, "thorough": 16}
-RULE = ("progen single-block pure integer functions (constant addi subi muli andi ori xori shli[, cmpi select minsi "
-        "maxui ...], one of i8/i32/i64 (+i1), <=8 statements, 1-3 arguments, 1-2 results, duplicated ops, constants "
-        "biased to 0/1/2) x (a) a random list of 0..5 rules (the empty list included) from a library of sound PDL "
-        "rewrites (commutativity of addi/muli/andi/ori/xori, associativity of addi/muli both ways, a&a->a, a|a->a, "
-        "a*(b+c)<->a*b+a*c, x+0->x, x*1->x, x*0->0, x*2<->x<<1, x-x->0, x^x->0, x+x->x*2, a-b->a+b*-1), each "
-        "validated against vt.refsem before use and compiled by convert-pdl-to-pdl-interp + "
-        "convert-pdl-interp-to-eqsat-pdl-interp into a scratch file, max_iterations 1..4, unit costs or a random "
-        "per-op cost table (1..9) through cost_file: eqsat-create-eclasses, apply-eqsat-pdl-interp, eqsat-add-costs, "
-        "eqsat-extract; (b) no rules: eqsat-create-eclasses, eqsat-add-costs, eqsat-extract. module.verify() after "
-        "every pass as xdsl-opt does. Oracle: the output verifies, contains no equivalence.* op, every operand is "
-        "defined before its use, and vt.refsem gives the same results before/after (compare_results) on 6 "
-        "recipe-derived input vectors + the boundary grid (<=2 arguments; all 256 values for one i8 argument); "
-        "(b) additionally: after running xDSL's cse and dropping unused operations on both, the multisets of non-constant operation "
-        "names are equal. Exceptions: DiagnosticException / InterpretationError / assertion messages that state a "
-        "limitation ('not supported', 'only supports') are discards, anything else raised by a pass on these "
-        "valid inputs is a violation (pipeline_raises). A CPU-time watchdog per case gives inconclusive. "
-        "Non-trivial: after apply-eqsat-pdl-interp at least one e-class op has >=2 operands.")
+RULE = ("progen single-block pure integer functions: 2-7 statements of the rule vocabulary (addi muli subi andi ori xori "
+        "shli, constants 0/1/2/-1/3/5, duplicated ops) followed by <=5 progen statements; one of i8/i32/i64/index, in "
+        "the flavours arith / mixed (+i1: cmpi select min/max right shifts) / two (+ a second width and casts) / "
+        "funcs2 (two functions in the module); 0-3 arguments, 1-2 results. (a) x a list of 0..6 rules (empty in 1 of "
+        "10) from a library of sound PDL rewrites (commutativity of addi/muli/andi/ori/xori, associativity of "
+        "addi/muli both ways, a&a->a, a|a->a, a*(b+c)<->a*b+a*c, x+0->x, x*1->x, x*0->0, x*2<->x<<1, x-x->0, "
+        "x^x->0, x+x->x*2, a-b->a+b*-1), each validated against vt.refsem before use and compiled by "
+        "convert-pdl-to-pdl-interp + convert-pdl-interp-to-eqsat-pdl-interp into a scratch file, max_iterations "
+        "1..4, unit costs or a random per-op cost table (1..9) through cost_file: eqsat-create-eclasses, "
+        "apply-eqsat-pdl-interp, eqsat-add-costs, eqsat-extract; (b) no rules: eqsat-create-eclasses, "
+        "eqsat-add-costs, eqsat-extract. module.verify() after every pass as xdsl-opt does. Oracle: the output "
+        "verifies, contains no equivalence.* op, every operand is defined before its use (if not, the check goes on "
+        "with the topologically re-ordered output; a cyclic output is its own violation), and vt.refsem gives the "
+        "same results before/after (compare_results) for every function on 6 recipe-derived input vectors + the "
+        "boundary grid (<=2 arguments; all 256 values for one i8 argument); (b) additionally: after running xDSL's "
+        "cse and dropping unused operations on both, the multisets of non-constant operation names are equal. "
+        "Exceptions: DiagnosticException / InterpretationError / assertion messages that state a limitation ('not "
+        "supported', 'only supports') are discards, anything else raised by a pass on these valid inputs is a "
+        "violation (pipeline_raises). A CPU-time watchdog per case gives inconclusive. A result_changed case is "
+        "minimised inside the check (rules and statements deleted) and its signature names the rules and op kinds of "
+        "the minimised case. Non-trivial: after apply-eqsat-pdl-interp at least one e-class op has >=2 operands.")
 ASSUMPTIONS = ["vt.refsem implements the MLIR arith/func semantics (self-test table run once per process)",
                "the rule library is sound: every rule instance is validated term-against-term with refsem.arith_eval "
                "before it is admitted; the PDL text and the validated terms are generated from the same term pair",
@@ -591,8 +595,9 @@ def toposort(module):
             continue
         for blk in f.regions[0].blocks:
             ops = list(blk.ops)
+            term = ops[-1] if ops and ops[-1].name == "func.return" else None
             done = set(id(a) for a in blk.args)
-            order, rest = [], ops
+            order, rest = [], (ops[:-1] if term is not None else ops)
             while rest:
                 nxt, progress = [], False
                 for op in rest:
@@ -605,6 +610,10 @@ def toposort(module):
                 if not progress:
                     return False
                 rest = nxt
+            if term is not None:
+                if not all(id(o) in done for o in term.operands):
+                    return False
+                order.append(term)
             if order != ops:
                 for op in ops:
                     op.detach()
@@ -636,7 +645,7 @@ def evaluate(recipe):
         return "mismatch", [(sig, head + f"{out['pass']} raised {out['exc']}: {out['msg']} at {out['site']}")], info
     if out["status"] == "invalid":
         sig = {"check": "intermediate_invalid" if out["pass"] != "eqsat-extract" else "output_invalid",
-               "pass": out["pass"], "why": out["msg"].split("\n")[0][:80]}
+               "pass": out["pass"], "why": out["msg"].split("\n")[0].split(":")[0][:80]}
         return "mismatch", [(sig, head + f"module does not verify after {out['pass']}: {out['msg']}\n--- module\n"
                              + render(after)[:2500])], info
     tail = f"--- after\n{render(after)[:2500]}"
@@ -726,17 +735,19 @@ def run_case(h, recipe, label):
                 h.count("nt_cost_table")
     for sig, detail in mism:
         rec = recipe
-        if sig["check"] == "result_changed" and not h._shrinking:
-            key = digest(sig)
-            memo = _state.setdefault("minimised", {})
-            if key not in memo:
-                if len(memo) < (4 if h.quick else 12):
-                    memo[key] = _minimise(h, recipe, sig)
-                    h.count("internal_minimisations")
-                else:
-                    memo[key] = None
-            if memo[key] is not None:
-                sig, detail, rec = memo[key]
+        if sig["check"] == "result_changed" and not h._shrinking and label != "replay":
+            # the signature names the rules / op kinds of the MINIMISED case: minimise here (bounded number of
+            # times per process); later hits go to one "not minimised" bucket instead of one signature per case
+            memo = _state.setdefault("minimised", [])
+            done = None
+            if len(memo) < (4 if h.quick else 12):
+                done = _minimise(h, recipe, sig)
+                memo.append(done)
+                h.count("internal_minimisations")
+            if done is not None:
+                sig, detail, rec = done
+            else:
+                sig = dict(sig, rules="(not minimised)", ops="(not minimised)")
         h.mismatch(sig, rec, detail)
 
 
@@ -806,20 +817,25 @@ def _costs():
                      st.dictionaries(st.sampled_from(COST_OPS), st.integers(1, 9), min_size=1, max_size=5))
 
 
-def _pick_rules(x):
+def _pick_rules(x, present=()):
     """Rule list from one integer through a fixed mixing function (Hypothesis' own list/integer distributions are
-    heavily biased towards the empty list): 1 in 10 empty, else 1..6 distinct rules."""
+    heavily biased towards the empty list): 1 in 10 empty, else 1..6 distinct rules; 3 times in 4 only rules whose
+    root operation occurs in the program are drawn."""
     def nxt(v):
         return (v * 6364136223846793005 + 1442695040888963407) & ((1 << 64) - 1)
     v = nxt(nxt(zlib.crc32(str(x).encode())))
     if (v >> 33) % 10 == 0:
         return []
     v = nxt(v)
-    n = 1 + (v >> 33) % 6
+    pool = RULE_NAMES
+    if (v >> 33) % 4 != 0:
+        pool = [r for r in RULE_NAMES if RULES[r][0][0] in present] or RULE_NAMES
+    v = nxt(v)
+    n = min(1 + (v >> 33) % 6, len(pool))
     out = []
     while len(out) < n:
         v = nxt(v)
-        r = RULE_NAMES[(v >> 33) % len(RULE_NAMES)]
+        r = pool[(v >> 33) % len(pool)]
         if r not in out:
             out.append(r)
     return out
@@ -827,7 +843,9 @@ def _pick_rules(x):
 
 def _finish(r):
     if "rules" in r:        # mix in the program so that a repeated small integer does not repeat the rule list
-        r = dict(r, rules=_pick_rules(r["rules"] ^ zlib.crc32(json.dumps(r["prog"], sort_keys=True).encode())))
+        present = {s.get("op") for f in r["prog"]["funcs"] for s in f.get("body") or [] if isinstance(s, dict)}
+        r = dict(r, rules=_pick_rules(r["rules"] ^ zlib.crc32(json.dumps(r["prog"], sort_keys=True).encode()),
+                                      present))
     return r
 
 
@@ -861,7 +879,7 @@ def checks(h):
                     h.count("library_rule_usable" if why is None else "library_rule_excluded")
                     if why is not None:
                         h.notes.append(f"rule {n}@{ty} excluded: {why}")
-        h.hyp("rules", case_recipes("rules"), lambda r: run_case(h, r, "rules"), h.scale(120, 1800), 1)
-        h.hyp("norules", case_recipes("norules"), lambda r: run_case(h, r, "norules"), h.scale(30, 400), 2)
+        h.hyp("rules", case_recipes("rules"), lambda r: run_case(h, r, "rules"), h.scale(200, 2500), 1)
+        h.hyp("norules", case_recipes("norules"), lambda r: run_case(h, r, "norules"), h.scale(40, 500), 2)
     finally:
         _cleanup()
